@@ -430,6 +430,9 @@ class World(object):
         """Run deferred calls that are due (see pump_mode)."""
         if self.gclock is None:
             return
+        if self.pump_mode == "hold":
+            # a burst: several frames of one TCP segment are handled in one reactor turn, nothing deferred runs in between
+            return
         if self.pump_mode == "eager":
             for _ in range(1000):
                 due = [c for c in self.gclock.getDelayedCalls() if c.getTime() <= self.gclock.seconds()]
@@ -932,6 +935,25 @@ class World(object):
             else:
                 self.gclock.advance(dt)
         return fired
+
+    def pump_rounds(self, n=1):
+        """Run n reactor turns' worth of deferred calls (each round: the calls due now, not the ones they schedule)."""
+        st = self._begin("turn")
+        try:
+            for _ in range(n):
+                due = [c for c in self.gclock.getDelayedCalls() if c.getTime() <= self.gclock.seconds()]
+                for c in due:
+                    if c.active():
+                        f, a, kw = c.func, c.args, c.kw
+                        c.cancel()
+                        self.counters["deferred_calls_run"] += 1
+                        f(*a, **kw)
+        except Exception as e:
+            st.exc = "%s: %s" % (type(e).__name__, e)
+            st.tb = traceback.format_exc()
+        self._older_calls = [c for c in self.gclock.getDelayedCalls()]
+        self._end(st)
+        return st
 
     def _life_t0(self):
         return self.rebooted
